@@ -415,7 +415,7 @@ _SASS_AT = {"@if", "@else", "@each", "@for", "@while", "@include", "@mixin", "@f
             "@media", "@at-root", "@use", "@forward", "@import", "@content", "@extend", "@supports"}
 
 
-def swap_names(rng, src):
+def swap_names(rng, src, syn="scss"):
     """Exchange `_` and `-` inside some occurrences of variable names and of the names of mixins and
     functions defined in the text (each occurrence independently: every spelling must resolve)."""
     if re.search(r"get-function|get-mixin|function-exists|mixin-exists|variable-exists|module-variables|module-functions|@forward|keywords\(",
@@ -427,13 +427,18 @@ def swap_names(rng, src):
     changed = False
     out = []
     prev_sig = ""
-    raw = False          # inside the value of a custom property (raw text, `$x` is not a variable there)
+    raw, depth = False, 0    # inside the value of a custom property (raw text, `$x` is not a variable there)
     for k, (kind, t) in enumerate(toks):
         nt = t
-        if (kind == "ident" and t.startswith("--")) or (kind == "at" and t.lower() not in _SASS_AT):
-            raw = True       # custom property value / prelude of an unknown at-rule: raw text
-        elif raw and (t in (";", "}", "{") or (kind == "ws" and "\n" in t)):
-            raw = False
+        if not raw and ((kind == "ident" and t.startswith("--")) or (kind == "at" and t.lower() not in _SASS_AT)):
+            raw, depth = True, 0      # custom property value / prelude of an unknown at-rule: raw text
+        elif raw:
+            if kind == "interp" or t in ("{", "(", "["):
+                depth += 1
+            elif t in ("}", ")", "]") and depth > 0:
+                depth -= 1
+            elif depth == 0 and (t in (";", "}", "{") or (syn == "sass" and kind == "ws" and "\n" in t)):
+                raw = False
         if raw:
             out.append(t)
             continue
@@ -481,6 +486,7 @@ CORPUS = [
     ("scss", "$v-1: 1;\na{--c: $v-1, -1 + 3px;\n w: $v-1}"),                              # ... and in a custom property
     ("scss", "\ufeffa {\n  color: red\n}\n"),                                           # a second BOM is not "a leading BOM"
     ("scss", "a{--c:  1.25 < 2 ;}"),                                                     # whitespace in a custom property is significant
+    ("scss", "$v-3: 1;\na{--custom: 0.5 * 3, #{1 + 2}px == $v-3;\n w: $v-3}"),           # raw text continues after an interpolation
 ]
 
 
@@ -861,7 +867,7 @@ def add_rewrites(ck, rng, add, src, syn, base, n, **opts):
         elif kd == "names":
             if syn == "css":
                 continue
-            v = swap_names(rng, src)
+            v = swap_names(rng, src, syn)
         if v is None or v == src:
             continue
         add("rewrite:" + kd, v, syn, base=base, **opts)
